@@ -617,8 +617,16 @@ def replay_callback(a):
             t = RZILTransformer(ArchEnum.HEXAGON, parameters=[Parameter("p0", ValueType(True, 32))], return_type=ValueType(*dst))
             asg = t.jump_stmt([Token("RETURN", "return"), op])
             v64 = _concrete_den(asg.src, values)
-            mask = (1 << dst[1]) - 1
-            got = v64 & mask
+            # the caller reads the value through the real SubRoutine.il_read() / Call.il_read()
+            from rzilcompiler.Transformer.Hybrids.SubRoutine import SubRoutine
+            from rzilcompiler.Transformer.Hybrids.Call import Call
+            got = None
+            for rd in (SubRoutine("fn", ValueType(*dst), [Parameter("x", ValueType(True, 32))], "return x;"), Call("c_call", ValueType(*dst), ["get_npc", "pkt"])):
+                txt = rd.il_read()
+                srt, val, err = irkit.eval_text_concrete(txt, {"ret_val": 64}, {"ret_val": v64})
+                if err or srt != ("bv", dst[1]) or val != _c_value(kind, src, dst, x):
+                    return True, f"return of {kind} {tname(src)} value {x:#x} as {tname(dst)}: ret_val = {v64:#x}, caller reads {txt} = {val if val is None else hex(val)} ({err or srt}); C11 value {_c_value(kind, src, dst, x):#x}"
+                got = val
         else:
             t = RZILTransformer(ArchEnum.HEXAGON)
             if ctx == "init_a_cast":
@@ -708,6 +716,16 @@ QUICK_KINDS = ["Variable", "Register", "Number", "Cast", "HybridTmp", "CompareOp
 
 def gen_task(loader, check, what, types="T8", kinds=None, replay_on=True, sections=None, depth=2):
     tps = {"T8": T8, "TX": TX}[types]
+    if what == "chained-assignment":
+        # conversion chain through a chained assignment a = b = x: a receives conv(conv(x -> type b) -> type a)  (generator of C05)
+        from . import c05
+        saved = getattr(check, "ob_filter", None)
+        check.ob_filter = r"a-gets-the-converted-value-of-b|chained\)#total|both-assignments"
+        try:
+            c05.gen_chained(loader, check, replay_on)
+        finally:
+            check.ob_filter = saved
+        return
     if what == "emission":
         gen_emission(loader, check, tps, kinds, replay_on)
     elif what == "ite":
@@ -723,6 +741,7 @@ def tasks_for(tier):
     kinds = irkit.ALL_KINDS if tier == "thorough" else QUICK_KINDS
     ts = [{"what": "emission", "types": types, "kinds": [k]} for k in irkit.BV_KINDS]
     ts.append({"what": "ite", "types": types})
+    ts.append({"what": "chained-assignment"})
     ts.append({"what": "chains", "depth": 2})
     if tier == "thorough":
         ts.append({"what": "chains", "depth": 3})
@@ -738,6 +757,7 @@ def generate_reduced(loader, check):
     gen_emission(loader, check, T8, ["Variable"], False)
     gen_ite_lowering(loader, check, [(True, 32), (False, 8)], False)
     gen_callbacks(loader, check, [(True, 8), (False, 8), (True, 32), (False, 64)], ["Variable", "CompareOp"], False)
+    gen_task(loader, check, "chained-assignment", replay_on=False)
 
 
 def run(check: Check):
